@@ -1,4 +1,4 @@
-// Command dev-c20 runs the C20 check on its own: dev-c20 C20 <quick|thorough>.
+// Command dev-c09 runs only the C09 check (development build).
 package main
 
 import (
@@ -6,22 +6,13 @@ import (
 	"os"
 	"runtime/pprof"
 
-	"verif/harness/checks/c20"
+	_ "verif/harness/checks/c09"
 	"verif/harness/lib"
 )
 
 func main() {
 	if len(os.Args) >= 2 && os.Args[1] == "serve" {
 		lib.ServeMain(os.Args[2:])
-		return
-	}
-	if len(os.Args) == 3 && os.Args[1] == "gen-goldens" {
-		// One-off helper: write the golden files with the build linked in.
-		lib.QuietGlobalLog()
-		if err := c20.GenGoldens(os.Args[2]); err != nil {
-			fmt.Fprintln(os.Stderr, "gen-goldens:", err)
-			os.Exit(1)
-		}
 		return
 	}
 	if len(os.Args) < 3 {
